@@ -27,9 +27,8 @@ type secureObs struct {
 	After   string   `json:"after,omitempty"`
 }
 
-// secureCase runs clone.Secure on one value.
+// secureCase builds a value of the generated type n and runs clone.Secure on it.
 func secureCase(w *core.Writer, id, kind string, n *TNode, r *core.Rand, pnil float64) {
-	tab := NewTable()
 	vg := &ValGen{r: r, PNil: pnil}
 	v := vg.Value(n, vctx{path: "v"})
 	if n.Kind == KPtr && n.Elem.Kind == KStruct && v.IsNil() && !r.Chance(0.05) {
@@ -37,7 +36,13 @@ func secureCase(w *core.Writer, id, kind string, n *TNode, r *core.Rand, pnil fl
 		p.Elem().Set(vg.Value(n.Elem, vctx{path: "v"}.down(KPtr, "*")))
 		v = p
 	}
-	x := v.Interface()
+	runSecure(w, id, kind, n.String(), kname[n.Kind], v.Interface(), vg.Canaries, vg.SecFields)
+}
+
+// runSecure runs clone.Secure(x) and emits the CSecure case: abstracted argument before, observation after,
+// and the harness's own canary verdicts (secure canaries still in the JSON of the value, plain ones gone).
+func runSecure(w *core.Writer, id, kind, typeName, rootKind string, x any, cans []*Canary, secFields int) {
+	tab := NewTable()
 	// what Secure receives is the dynamic value of the `any` argument
 	abstractArg := func() string {
 		if x == nil {
@@ -46,7 +51,7 @@ func secureCase(w *core.Writer, id, kind string, n *TNode, r *core.Rand, pnil fl
 		return Abstract(tab, reflect.ValueOf(x))
 	}
 	before := abstractArg()
-	ob := secureObs{Type: n.String(), Before: jsonOf(x)}
+	ob := secureObs{Type: typeName, Before: jsonOf(x)}
 	var err error
 	func() {
 		defer func() {
@@ -67,7 +72,10 @@ func secureCase(w *core.Writer, id, kind string, n *TNode, r *core.Rand, pnil fl
 		o = core.App("ObsOk", abstractArg())
 		text := jsonOf(x)
 		ob.After = text
-		for _, c := range vg.Canaries {
+		for _, c := range cans {
+			if c.NoJSON {
+				continue
+			}
 			f := c.Found(text)
 			if c.Secret && f {
 				ob.Leaked = append(ob.Leaked, c.Pattern()+" @ "+c.Path)
@@ -79,7 +87,7 @@ func secureCase(w *core.Writer, id, kind string, n *TNode, r *core.Rand, pnil fl
 	}
 	nsec, maxd := 0, 0
 	pairs := map[string]bool{}
-	for _, c := range vg.Canaries {
+	for _, c := range cans {
 		if c.Secret {
 			nsec++
 			pairs[c.Pair] = true
@@ -96,10 +104,10 @@ func secureCase(w *core.Writer, id, kind string, n *TNode, r *core.Rand, pnil fl
 	w.Put(core.Case{
 		ID: id, Kind: kind,
 		Coq:        fmt.Sprintf("(CSecure %s %s)", before, o),
-		Nontrivial: nsec > 0 && maxd >= 2,
-		Hash:       core.Hash(n.String(), before, o),
-		Dist:       map[string]any{"depth": maxd, "secure_leaves": nsec, "pairs": ps, "canaries": len(vg.Canaries), "result": ob.Result, "root": kname[n.Kind]},
-		Input:      map[string]any{"seed": core.Seed(), "type": n.String(), "value": ob.Before},
+		Nontrivial: secFields > 0 && maxd >= 2,
+		Hash:       core.Hash(typeName, before, o),
+		Dist:       map[string]any{"depth": maxd, "secure_leaves": nsec, "secure_fields": secFields, "pairs": ps, "canaries": len(cans), "result": ob.Result, "root": rootKind},
+		Input:      map[string]any{"seed": core.Seed(), "type": typeName, "value": ob.Before},
 		Observed:   ob,
 	})
 }
@@ -273,7 +281,7 @@ func main() {
 	// ---- (iii) registry
 	for i := 0; i < *nReg; i++ {
 		r := root.Fork(uint64(7000000 + i))
-		tg := &TypeGen{r: r, MaxDepth: 1 + i%*maxDepth, PSecure: 0.1, PSecretName: 0.25, PUntaggedSecretName: []float64{0, 0.08, 0.25}[i%3], AllowArray: true}
+		tg := &TypeGen{r: r, MaxDepth: 1 + i%*maxDepth, PSecure: 0.1, PSecretName: 0.25, PUntaggedSecretName: []float64{0.03, 0.15, 0.4}[i%3], AllowArray: true}
 		mk := func() (*TNode, bool) {
 			switch r.Intn(8) {
 			case 0:
